@@ -165,6 +165,12 @@ pub fn grammar(max_n: usize) -> Grammar {
     leaves.push(Stmt::Render { name: Expr::s("p_pseudo"), form: RenderForm::Plain, args: vec![("x".into(), Expr::s("?")), ("y".into(), Expr::s("?"))] });
     leaves.push(Stmt::Render { name: Expr::s("p_pseudo"), form: RenderForm::With(Expr::var("y"), "x".into()), args: vec![] });
     leaves.push(Stmt::Include { name: Expr::s("p_pseudo"), args: vec![("x".into(), Expr::s("?"))] });
+    // arguments that read each other's names (swap): each is evaluated in the caller's scope, none sees a sibling
+    leaves.push(Stmt::Include { name: Expr::s("p_probe"), args: vec![("x".into(), Expr::var("y")), ("y".into(), Expr::var("x"))] });
+    leaves.push(Stmt::Render { name: Expr::s("p_probe"), form: RenderForm::Plain, args: vec![("x".into(), Expr::var("y")), ("y".into(), Expr::var("x"))] });
+    leaves.push(Stmt::Render { name: Expr::s("p_probe"), form: RenderForm::Plain, args: vec![("y".into(), Expr::s("?")), ("x".into(), Expr::var("y"))] });
+    leaves.push(Stmt::Render { name: Expr::s("p_probe"), form: RenderForm::With(Expr::var("y"), "x".into()), args: vec![("y".into(), Expr::var("x"))] });
+    leaves.push(Stmt::Render { name: Expr::s("p_probe"), form: RenderForm::For(Src::Expr(Expr::var("arr")), "x".into()), args: vec![("y".into(), Expr::var("x"))] });
     // names that differ from an existing partial's only by surrounding whitespace name nothing
     leaves.push(Stmt::Include { name: Expr::s(" p_probe"), args: vec![] });
     leaves.push(Stmt::Render { name: Expr::s("p_probe "), form: RenderForm::Plain, args: vec![] });
